@@ -923,8 +923,16 @@ class Sim:
             if k == "excl":
                 rec.cls("op:excl")
                 for j in js:
-                    man[j] = False
                     lv.M.add(int(lv.view[j]))
+                if L >= 1 and sum(op[2]) % 4 == 0:
+                    # the other documented entry point: all excluded measurement
+                    # events (visible and hidden) as an index *array*
+                    rec.cls("op:excl-via-apply_manual_indices")
+                    ds.filter.apply_manual_indices(
+                        ds, np.array(sorted(lv.M), dtype=np.int64))
+                else:
+                    for j in js:
+                        man[j] = False
             else:
                 # re-include currently excluded events (picked by rank)
                 exc = np.flatnonzero(~np.asarray(man))
